@@ -38,17 +38,168 @@ theorem getD_scaled {N : ℕ} (raw : List ℝ) {n : ℕ} (h : n < N) :
     (scaled N raw).getD n 0 = raw.getD n 0 / Real.sqrt (N : ℝ) := by
   rw [scaled, getD_vec, if_pos h]
 
+/-! ### the largest magnitude and the first significant sample -/
+
+/-- running maximum of magnitudes started at `m` -/
+theorem absMax_eq_foldl (t : List ℝ) : absMax t = t.foldl (fun m v => max m |v|) 0 := by
+  unfold absMax
+  congr 1
+  funext m v
+  simp only [RealFn.lt, RealFn.abs]
+  by_cases h : m < |v|
+  · simp [h, max_eq_right h.le]
+  · simp [h, max_eq_left (not_lt.mp h)]
+
+theorem le_foldl_max (t : List ℝ) (m : ℝ) : m ≤ t.foldl (fun m v => max m |v|) m := by
+  induction t generalizing m with
+  | nil => simp
+  | cons a t ih => exact le_trans (le_max_left m |a|) (ih (max m |a|))
+
+theorem mem_le_foldl_max (t : List ℝ) (m : ℝ) {v : ℝ} (hv : v ∈ t) :
+    |v| ≤ t.foldl (fun m v => max m |v|) m := by
+  induction t generalizing m with
+  | nil => simp at hv
+  | cons a t ih =>
+    rcases List.mem_cons.mp hv with rfl | h
+    · exact le_trans (le_max_right m |v|) (le_foldl_max t _)
+    · exact ih _ h
+
+theorem foldl_max_attained (t : List ℝ) (m : ℝ) :
+    t.foldl (fun m v => max m |v|) m = m ∨ ∃ v ∈ t, t.foldl (fun m v => max m |v|) m = |v| := by
+  induction t generalizing m with
+  | nil => simp
+  | cons a t ih =>
+    rcases ih (max m |a|) with h | ⟨v, hv, h⟩
+    · rcases max_choice m |a| with h' | h'
+      · left; rw [List.foldl_cons, h, h']
+      · right; exact ⟨a, List.mem_cons_self, by rw [List.foldl_cons, h, h']⟩
+    · right; exact ⟨v, List.mem_cons_of_mem _ hv, h⟩
+
+/-- `absMax` is non-negative -/
+theorem absMax_nonneg (t : List ℝ) : 0 ≤ absMax t := by
+  rw [absMax_eq_foldl]; exact le_foldl_max t 0
+
+/-- `absMax` bounds every magnitude -/
+theorem abs_le_absMax {t : List ℝ} {v : ℝ} (hv : v ∈ t) : |v| ≤ absMax t := by
+  rw [absMax_eq_foldl]; exact mem_le_foldl_max t 0 hv
+
+/-- `absMax` is `0` or attained -/
+theorem absMax_attained (t : List ℝ) : absMax t = 0 ∨ ∃ v ∈ t, absMax t = |v| := by
+  rw [absMax_eq_foldl]; exact foldl_max_attained t 0
+
+/-- `absMax` does not see a global sign -/
+theorem absMax_map_neg (t : List ℝ) : absMax (t.map (fun v => -v)) = absMax t := by
+  rw [absMax_eq_foldl, absMax_eq_foldl, List.foldl_map]
+  simp only [abs_neg]
+
+theorem firstSignificant_eq (t : List ℝ) :
+    firstSignificant t = (t.find? (fun v => decide (absMax t / 100 < |v|))).getD 0 := by
+  simp [firstSignificant, RealFn.lt, RealFn.abs]
+
+/-- negating the list negates its first significant sample (the same position is found) -/
+theorem firstSignificant_map_neg (t : List ℝ) :
+    firstSignificant (t.map (fun v => -v)) = -firstSignificant t := by
+  rw [firstSignificant_eq, firstSignificant_eq, absMax_map_neg, List.find?_map]
+  have hp : ((fun v : ℝ => decide (absMax t / 100 < |v|)) ∘ fun v => -v)
+      = fun v : ℝ => decide (absMax t / 100 < |v|) := by
+    funext v; simp [Function.comp]
+  rw [hp]
+  cases t.find? (fun v => decide (absMax t / 100 < |v|)) <;> simp
+
+/-- a non-zero first significant sample sits at some position `k`, exceeds 1% of the largest magnitude, and every
+earlier sample is negligible -/
+theorem firstSignificant_spec {t : List ℝ} (h : firstSignificant t ≠ 0) :
+    ∃ k, k < t.length ∧ t.getD k 0 = firstSignificant t ∧ absMax t / 100 < |firstSignificant t| ∧
+      ∀ j, j < k → |t.getD j 0| ≤ absMax t / 100 := by
+  rw [firstSignificant_eq] at h ⊢
+  cases hf : t.find? (fun v => decide (absMax t / 100 < |v|)) with
+  | none => rw [hf] at h; simp at h
+  | some b =>
+    obtain ⟨hb, k, hk, hkb, hlt⟩ := List.find?_eq_some_iff_getElem.mp hf
+    refine ⟨k, hk, ?_, ?_, ?_⟩
+    · simp [List.getD_eq_getElem?_getD, hk, hkb]
+    · simpa using hb
+    · intro j hj
+      have := hlt j hj
+      have hj' : j < t.length := lt_trans hj hk
+      simpa [List.getD_eq_getElem?_getD, hj'] using this
+
+theorem firstSignificant_mem {t : List ℝ} (h : firstSignificant t ≠ 0) : firstSignificant t ∈ t := by
+  obtain ⟨k, hk, hkb, _⟩ := firstSignificant_spec h
+  rw [← hkb, List.getD_eq_getElem?_getD, List.getElem?_eq_getElem hk]
+  simp
+
+/-- the first significant sample is non-zero exactly when the list has a non-zero sample -/
+theorem firstSignificant_ne_zero_iff (t : List ℝ) : firstSignificant t ≠ 0 ↔ ∃ v ∈ t, v ≠ 0 := by
+  constructor
+  · intro h; exact ⟨_, firstSignificant_mem h, h⟩
+  · rintro ⟨v, hv, hv0⟩
+    have hpos : 0 < absMax t := lt_of_lt_of_le (abs_pos.mpr hv0) (abs_le_absMax hv)
+    rcases absMax_attained t with h0 | ⟨w, hw, hwe⟩
+    · exact absurd h0 hpos.ne'
+    · rw [firstSignificant_eq]
+      cases hf : t.find? (fun v => decide (absMax t / 100 < |v|)) with
+      | none =>
+        have := List.find?_eq_none.mp hf w hw
+        simp only [decide_eq_true_eq, not_lt] at this
+        linarith
+      | some b =>
+        have hb := List.find?_some hf
+        simp only [decide_eq_true_eq] at hb
+        simp only [Option.getD_some]
+        intro hb0
+        rw [hb0, abs_zero] at hb
+        linarith
+
 /-- even-index taper: flipped exactly when the reported sum is negative -/
 theorem dpssTaper_even {N i : ℕ} (raw : List ℝ) (ts : ℝ) (hi : i % 2 = 0) :
     dpssTaper N i raw ts
       = if ts < 0 then (scaled N raw).map (fun v => -v) else scaled N raw := by
   simp [dpssTaper, scaled, hi, RealFn.lt, RealFn.sqrt]
 
-/-- odd-index taper: flipped exactly when the first scaled sample is negative -/
+/-- odd-index taper: flipped exactly when the first significant scaled sample (the first one above 1% of the largest
+magnitude) is negative -/
 theorem dpssTaper_odd {N i : ℕ} (raw : List ℝ) (ts : ℝ) (hi : i % 2 ≠ 0) :
     dpssTaper N i raw ts
-      = if (scaled N raw).getD 0 0 < 0 then (scaled N raw).map (fun v => -v) else scaled N raw := by
+      = if firstSignificant (scaled N raw) < 0 then (scaled N raw).map (fun v => -v) else scaled N raw := by
   simp [dpssTaper, scaled, hi, RealFn.lt, RealFn.sqrt]
+
+/-- odd-index taper: the first significant sample of the output is the magnitude of the first significant scaled
+sample -/
+theorem firstSignificant_dpssTaper_odd {N i : ℕ} (raw : List ℝ) (ts : ℝ) (hi : i % 2 ≠ 0) :
+    firstSignificant (dpssTaper N i raw ts) = |firstSignificant (scaled N raw)| := by
+  rw [dpssTaper_odd raw ts hi]
+  split
+  · next h => rw [firstSignificant_map_neg, abs_of_neg h]
+  · next h => rw [abs_of_nonneg (not_lt.mp h)]
+
+/-- a non-zero raw sample gives a non-zero scaled sample -/
+theorem scaled_exists_ne_zero {N : ℕ} (raw : List ℝ) (h : ∃ n, n < N ∧ raw.getD n 0 ≠ 0) :
+    ∃ v ∈ scaled N raw, v ≠ 0 := by
+  obtain ⟨n, hn, hne⟩ := h
+  have hs : Real.sqrt (N : ℝ) ≠ 0 :=
+    (Real.sqrt_pos.mpr (by exact_mod_cast Nat.lt_of_le_of_lt (Nat.zero_le n) hn)).ne'
+  refine ⟨(scaled N raw).getD n 0, ?_, ?_⟩
+  · have hl : n < (scaled N raw).length := by rw [scaled_length]; exact hn
+    rw [List.getD_eq_getElem?_getD, List.getElem?_eq_getElem hl]
+    simp
+  · rw [getD_scaled raw hn]; exact div_ne_zero hne hs
+
+/-- membership in a list read through `getD` -/
+theorem exists_getD_of_mem {t : List ℝ} {v : ℝ} (hv : v ∈ t) : ∃ m, m < t.length ∧ t.getD m 0 = v := by
+  obtain ⟨m, hm, rfl⟩ := List.getElem_of_mem hv
+  exact ⟨m, hm, by simp [List.getD_eq_getElem?_getD, hm]⟩
+
+theorem getD_mem_or_zero (t : List ℝ) (n : ℕ) : t.getD n 0 ∈ t ∨ t.getD n 0 = 0 := by
+  by_cases h : n < t.length
+  · left; rw [List.getD_eq_getElem?_getD, List.getElem?_eq_getElem h]; simp
+  · right; simp [List.getD_eq_getElem?_getD, not_lt.mp h]
+
+/-- every sample read with zero padding is bounded by `absMax` -/
+theorem abs_getD_le_absMax (t : List ℝ) (n : ℕ) : |t.getD n 0| ≤ absMax t := by
+  rcases getD_mem_or_zero t n with h | h
+  · exact abs_le_absMax h
+  · rw [h, abs_zero]; exact absMax_nonneg t
 
 /-- the output taper is the scaled column or its negation -/
 theorem dpssTaper_eq_or (N i : ℕ) (raw : List ℝ) (ts : ℝ) :
